@@ -84,10 +84,8 @@ TABLE_VARIANTS = (
     ('f64 (f*2^20)', P20, 0, float),
     ('f64 (f+2^20)', 1, P20, float),
 )
-# RESTRICTED: nodes * 2^-30 is NOT in the menu - interp2d clips the node spacing at 1e-10 ("to avoid divide by zero"), so
-# tables whose nodes are closer than 1e-10 are interpolated wrongly on the unchanged tree (reported; shortest input
-# interp2d([2.5e-11], [0, 5e-11], [[0], [1]]) -> 0.25 instead of 0.5).  2^-20 keeps every spacing of the menu above 1e-10.
-NODE_VARIANTS = (('x*2^-20', Fraction(1, 2 ** 20), 0), ('x*2^20', P20, 0), ('x+2^20', 1, P20))
+# node sets scaled by 2^-30 (spacings far below 1e-10) are in the menu since the repair of interp2d's 1e-10 clip (fix 5691d42)
+NODE_VARIANTS = (('x*2^-30', Fraction(1, 2 ** 30), 0), ('x*2^-20', Fraction(1, 2 ** 20), 0), ('x*2^20', P20, 0), ('x+2^20', 1, P20))
 NEAR = 1e-7      # queries this far (relative; absolute next to 0) on either side of every node
 
 CASE_TIMEOUT = 120
